@@ -1,46 +1,98 @@
 #!/usr/bin/env python3
 """Seeded-variant self-test (informational): for every confirmed mutant under /verif/seeded, apply its patch to a
-scratch copy of /repo, run the quick check of every claimed property against that copy and record which checks
-report a violation.  Nothing here is a registered check; results go to seeded/MATRIX.json."""
+scratch clone of /repo, run the quick check of every claimed property against that clone and record which checks
+report a violation.  Nothing here is a registered check; results go to seeded/MATRIX.json.
+usage: selftest.py [--jobs N] [prefix ...]      (prefix: C03 or C03-m2)"""
 import json, os, shutil, subprocess, sys, tempfile, time
 V = os.path.dirname(os.path.dirname(os.path.abspath(__file__)))
 props = [c["property_id"] for c in json.load(open(os.path.join(V, "MANIFEST.json")))["checks"]]
-only = [a for a in sys.argv[1:] if not a.startswith("--")]
-seeds = sorted(d for d in os.listdir(os.path.join(V, "seeded")) if os.path.isdir(os.path.join(V, "seeded", d)))
+args = sys.argv[1:]
+jobs = 1
+worker = None
+if "--jobs" in args:
+    i = args.index("--jobs")
+    jobs = int(args[i + 1])
+    del args[i:i + 2]
+if "--worker" in args:
+    i = args.index("--worker")
+    worker = (int(args[i + 1]), int(args[i + 2]), args[i + 3])
+    del args[i:i + 4]
+only = [a for a in args if not a.startswith("--")]
+seeds = sorted(d for d in os.listdir(os.path.join(V, "seeded"))
+               if os.path.isfile(os.path.join(V, "seeded", d, "patch.diff")))
 if only:
     seeds = [s for s in seeds if any(s.startswith(o) for o in only)]
-scratch = tempfile.mkdtemp(prefix="selftest-")
-repo = os.path.join(scratch, "repo")
-out = os.path.join(scratch, "out")
-subprocess.check_call(["git", "clone", "-q", "/repo", repo])
-matrix = {}
-env = dict(os.environ, RUSTUN_REPO=repo, VERIF_OUT_DIR=out)
-t0 = time.time()
-try:
-    base = {}
+
+
+def run_checks(env):
+    row = {}
     for p in props:
         r = subprocess.run([os.path.join(V, "bin", "verif"), "check", p], env=env, stdout=subprocess.PIPE, stderr=subprocess.STDOUT, text=True)
-        base[p] = r.returncode
-    matrix["_unchanged_tree"] = base
-    for sd in seeds:
-        patch = os.path.join(V, "seeded", sd, "patch.diff")
-        a = subprocess.run(["git", "-C", repo, "apply", patch], stdout=subprocess.PIPE, stderr=subprocess.STDOUT, text=True)
-        if a.returncode != 0:
-            matrix[sd] = {"error": "patch does not apply: " + a.stdout[-200:]}
-            continue
-        row = {}
-        for p in props:
-            r = subprocess.run([os.path.join(V, "bin", "verif"), "check", p], env=env, stdout=subprocess.PIPE, stderr=subprocess.STDOUT, text=True)
-            if r.returncode == 1:
-                rules = sorted({l.strip().split(":")[0].replace("rule ", "") for l in r.stdout.splitlines() if l.startswith("  rule ")})
-                row[p] = rules[:4]
-        matrix[sd] = {"target": sd.split("-")[0], "caught_by": row, "caught_by_target": sd.split("-")[0] in row}
-        subprocess.check_call(["git", "-C", repo, "checkout", "-q", "--", "."])
-        print(sd, "->", ",".join(sorted(row)) or "NOT CAUGHT", flush=True)
-finally:
-    shutil.rmtree(scratch, ignore_errors=True)
+        if r.returncode != 0:
+            rules = sorted({l.strip().split(":")[0].replace("rule ", "") for l in r.stdout.splitlines() if l.startswith("  rule ")})
+            row[p] = rules[:4]
+    return row
+
+
+def work(my_seeds, with_base, out_file):
+    scratch = tempfile.mkdtemp(prefix="selftest-")
+    repo = os.path.join(scratch, "repo")
+    subprocess.check_call(["git", "clone", "-q", "/repo", repo])
+    env = dict(os.environ, RUSTUN_REPO=repo, VERIF_OUT_DIR=os.path.join(scratch, "out"))
+    if worker is not None:
+        env["VERIF_TARGET_DIR"] = os.path.join(scratch, "target")
+    matrix = {}
+    try:
+        if with_base:
+            matrix["_unchanged_tree"] = run_checks(env)
+        for sd in my_seeds:
+            patch = os.path.join(V, "seeded", sd, "patch.diff")
+            a = subprocess.run(["git", "-C", repo, "apply", patch], stdout=subprocess.PIPE, stderr=subprocess.STDOUT, text=True)
+            if a.returncode != 0:
+                matrix[sd] = {"error": "patch does not apply: " + a.stdout[-200:]}
+                continue
+            row = run_checks(env)
+            tgt = sd.split("-")[0]
+            matrix[sd] = {"target": tgt, "caught_by": row, "caught_by_target": tgt in row}
+            subprocess.check_call(["git", "-C", repo, "checkout", "-q", "--", "."])
+            print(sd, "->", ",".join(sorted(row)) or "NOT CAUGHT", flush=True)
+    finally:
+        shutil.rmtree(scratch, ignore_errors=True)
+    json.dump(matrix, open(out_file, "w"), indent=1, sort_keys=True)
+
+
+t0 = time.time()
+if worker is not None:
+    k, n, out_file = worker
+    work(seeds[k::n], k == 0, out_file)
+    sys.exit(0)
+parts = []
+if jobs <= 1:
+    f = tempfile.mktemp(prefix="matrix-part-")
+    work(seeds, True, f)
+    parts.append(f)
+else:
+    procs = []
+    for k in range(jobs):
+        f = tempfile.mktemp(prefix="matrix-part-%d-" % k)
+        parts.append(f)
+        procs.append(subprocess.Popen([sys.executable, os.path.abspath(__file__), "--worker", str(k), str(jobs), f] + only))
+    for p in procs:
+        p.wait()
+matrix = {}
+for f in parts:
+    if os.path.exists(f):
+        matrix.update(json.load(open(f)))
+        os.remove(f)
 matrix["_wall_s"] = round(time.time() - t0)
-json.dump(matrix, open(os.path.join(V, "seeded", "MATRIX.json"), "w"), indent=1, sort_keys=True)
+matrix["_commit"] = subprocess.run(["git", "-C", V, "rev-parse", "--short", "HEAD"], stdout=subprocess.PIPE, text=True).stdout.strip()
+dst = os.path.join(V, "seeded", "MATRIX.json")
+if only and os.path.exists(dst):        # partial run: merge into the existing matrix
+    old = json.load(open(dst))
+    old.update(matrix)
+    matrix = old
+json.dump(matrix, open(dst, "w"), indent=1, sort_keys=True)
 n = [k for k in matrix if not k.startswith("_")]
-print("%d mutants, %d caught by their target property's check, %d caught by some check"
-      % (len(n), sum(1 for k in n if matrix[k].get("caught_by_target")), sum(1 for k in n if matrix[k].get("caught_by"))))
+print("%d mutants, %d caught by their target property's check, %d caught by some check; unchanged tree alarms: %s"
+      % (len(n), sum(1 for k in n if matrix[k].get("caught_by_target")), sum(1 for k in n if matrix[k].get("caught_by")),
+         matrix.get("_unchanged_tree")))
